@@ -1029,8 +1029,11 @@ static void DecodeCALLS(Word Code) {
 
         AdrWord = EvalStrIntExpressionWithFlags(&ArgStr[1], Int16, &OK, &Flags);
         if (OK) {
+            /* n = 0 calls 0086H; address 0006H itself is no entry */
             if (AdrWord == 0x86) {
                 AdrWord = 0x06;
+            } else if (AdrWord == 0x06) {
+                AdrWord = 0;
             }
             if (!mFirstPassUnknown(Flags) && ((AdrWord & 0xff87) != 6)) {
                 WrStrErrorPos(ErrNum_NotAligned, &ArgStr[1]);
